@@ -146,6 +146,14 @@ SPECS["C11"] = dict(
         "Woodpile.Props.C11.view_find",
         "Woodpile.Props.C11.reject_iff",
         "Woodpile.Props.C11.sorted_reject_iff",
+        # track misc2 (claim-audit gap 12): the sink-call level
+        "Woodpile.Props.C11.encode_pieces_flat",
+        "Woodpile.Props.C11.encode_calls_layout",
+        "Woodpile.Props.C11.calls_len_eq",
+        "Woodpile.Props.C11.nested_lawful_every_depth",
+        "Woodpile.Props.C11.dval_lawful",
+        "Woodpile.Props.C11S.sink_agnostic_any_pieces",
+        "Woodpile.Props.C11S.sink_agnostic_driver",
     ],
     families=[dict(name="tlv", quick=3000, thorough=300000)],
     technique="Lean 4 proof (all pair lists, generic lawful value type, saturating usize/u32 arithmetic) + model/implementation correspondence",
